@@ -327,9 +327,11 @@ class Equation:
         spacetime = self.program.get_spacetime()
         enum_st = spacetime is not None and spacetime.emit_pos(rank)
 
+        # The display is disabled when collecting metrics, but the interval
+        # code still reads the position
         enum_metrics = self.metrics is None
 
-        return (enum_int or enum_st) and enum_metrics
+        return enum_int or (enum_st and enum_metrics)
 
     @staticmethod
     def __frac_coords(sexpr: Basic) -> bool:
